@@ -1,2 +1,27 @@
-(* C20.  Theorems are added here as they are proved. *)
-From PJ.Model Require Import Base.
+(* C20 -- a rejected statement never poisons the rest of the stream. *)
+From PJ.Model Require Import Base Terms Encoder Streams.
+From PJ.Proofs Require Import EncoderProofs.
+
+(* A rejection marks the stream failed and leaves flow, tables and repeated terms exactly as they
+   were: whatever had been written before is untouched. *)
+Theorem C20_rejection_closes_and_preserves :
+  forall (terms : list term) (s s' : stream) (e : exn),
+    stream_triple terms s = (s', Err e) \/ stream_quad terms s = (s', Err e) ->
+    st_failed s' = true /\ st_flow s' = st_flow s /\ st_enc s' = st_enc s /\ st_rep s' = st_rep s.
+Proof. exact rejection_closes. Qed.
+Print Assumptions C20_rejection_closes_and_preserves.
+
+(* A failed stream refuses every further statement, graph and declaration, unchanged. *)
+Theorem C20_failed_stream_refuses_statements :
+  forall (terms : list term) (s : stream),
+    st_failed s = true ->
+    stream_triple terms s = (s, Err JAssertion) /\ stream_quad terms s = (s, Err JAssertion).
+Proof. exact failed_stream_refuses. Qed.
+Print Assumptions C20_failed_stream_refuses_statements.
+
+Theorem C20_failed_stream_refuses_graphs_and_namespaces :
+  forall (s : stream) (g : term) (ts : list (list term)) (n i : str),
+    st_failed s = true ->
+    stream_graph g ts s = (s, [Raise JAssertion], false) /\ namespace_declaration n i s = (s, Err JAssertion).
+Proof. exact failed_stream_refuses_all. Qed.
+Print Assumptions C20_failed_stream_refuses_graphs_and_namespaces.
